@@ -2093,6 +2093,44 @@ pub struct RunResult {
 /// C07 with locks much smaller than a machine word, stored back to back: duplicate detection
 /// must tell neighbours apart whatever their size and alignment. No thread is involved; the
 /// verdict of every checked constructor is compared with "some index is listed twice".
+/// C07 for a lock stored inside the data of another lock: (outer, inner) names two distinct
+/// locks - no duplicate - although the inner one lies within the outer one's memory
+fn nested_lock_duplicate_check(sched: &Sched) {
+    use happylock::collection::{BoxedLockCollection, RefLockCollection, RetryingLockCollection};
+    type InnerM = happylock::mutex::Mutex<u8, crate::raw::SimRawMutex>;
+    #[repr(C)]
+    struct Account {
+        id: u64,
+        balance: InnerM,
+    }
+    type Outer = happylock::rwlock::RwLock<Account, crate::raw::SimRawRwLock>;
+    let outer = Outer::new(Account { id: 1, balance: InnerM::new(0) });
+    let key = match ThreadKey::get() {
+        Some(k) => k,
+        None => return,
+    };
+    let (verdicts, _) = crate::raw::recording(|| {
+        let g = outer.read(key);
+        let inner: &InnerM = &g.balance;
+        let _ = g.id;
+        let v = vec![
+            ("BoxedLockCollection", BoxedLockCollection::try_new((&outer, inner)).is_some()),
+            ("RetryingLockCollection", RetryingLockCollection::try_new((&outer, inner)).is_some()),
+            ("RefLockCollection", RefLockCollection::try_new(&(&outer, inner)).is_some()),
+        ];
+        drop(g);
+        v
+    });
+    let mut g = sched.lock();
+    for (what, accepted) in verdicts {
+        g.stats.dup_checks += 1;
+        if !accepted {
+            let d = format!("{}::try_new rejected (outer lock, lock stored inside the outer lock's data): two distinct locks, no duplicate", what);
+            g.event(Clause::DupVerdict, 0, d);
+        }
+    }
+}
+
 fn tiny_duplicate_checks(sched: &Sched, seed: u64) {
     use happylock::collection::{BoxedLockCollection, RefLockCollection, RetryingLockCollection};
     type TinyM = happylock::mutex::Mutex<u8, crate::raw::SimRawMutex>;
@@ -2378,6 +2416,9 @@ pub fn run_scenario(scn: &Scenario) -> RunResult {
     sched.lock().tag_panicky = scn.world.panicky_tags.clone();
     if scn.profile == "C07" {
         tiny_duplicate_checks(&sched, scn.cfg.sched_seed);
+        if scn.cfg.sched_seed % 8 == 3 {
+            nested_lock_duplicate_check(&sched);
+        }
     }
     if scn.profile == "C08" {
         tiny_order_checks(&sched, scn.cfg.sched_seed);
